@@ -358,8 +358,8 @@ func init() {
 				}
 				dirty := map[*ssa.Function]*dirt{}
 				type site struct {
-					ins ssa.Instruction
-					why string
+					ins   ssa.Instruction
+					why   string
 					roots map[int]bool
 				}
 				sitesOf := func(f *ssa.Function) []site {
